@@ -267,9 +267,9 @@ type fixture struct {
 	srv    *server.Server
 }
 
-func newFixture(ctx context.Context, kv *recKV, chordID, tunID *protocol.Node) *fixture {
+func newFixture(ctx context.Context, kv *recKV, chordID, tunID *protocol.Node, opts ...func(*server.Config)) *fixture {
 	f := &fixture{kv: kv, tunT: newStubTransport(tunID), chordT: newStubTransport(chordID)}
-	f.srv = server.New(server.Config{
+	cfg := server.Config{
 		ParentContext:   ctx,
 		Logger:          zap.NewNop(),
 		Chord:           kv,
@@ -277,7 +277,11 @@ func newFixture(ctx context.Context, kv *recKV, chordID, tunID *protocol.Node) *
 		ChordTransport:  f.chordT,
 		Apex:            testApex,
 		Acme:            testAcme,
-	})
+	}
+	for _, o := range opts {
+		o(&cfg)
+	}
+	f.srv = server.New(cfg)
 	return f
 }
 
